@@ -58,9 +58,9 @@ const srcAbs = "/w/src"
 func mt(sec int64, frac int64) (int64, int64) { return sec, frac }
 
 func genPackTree(rng *Rng, risky bool) (*TNode, bool, string) {
-	names := []string{"a", "b.txt", "c", "d", "sp ace", "-dash", ".hidden", "e.tf", "sub", "z"}
+	names := []string{"a", "b.txt", "c", "d", "sp ace", "-dash", ".hidden", "e.tf", "sub", "z", "..data", "..."}
 	fracs := []int64{0, 400000000, 500000000, 600000000, 999999999, 1}
-	perms := []uint32{0o644, 0o600, 0o755, 0o444, 0o400, 0o777, 0o640}
+	perms := []uint32{0o644, 0o600, 0o755, 0o444, 0o400, 0o777, 0o640, 0o000, 0o001}
 	hasOutLink := false
 	var gen func(depth int) *TNode
 	gen = func(depth int) *TNode {
@@ -93,6 +93,16 @@ func genPackTree(rng *Rng, risky bool) (*TNode, bool, string) {
 					t = rng.Pick([]string{"a", "b.txt", "sub", "c/a", "nothing", "./a"})
 				case j < 7:
 					t = up + rng.Pick([]string{"a", "b.txt", "sub"})
+					if rng.Chance(25) {
+						// exactly the parent of the source directory, or the source directory itself
+						t = strings.TrimSuffix(up+rng.Pick([]string{"..", "../src/..", ".", ""}), "/")
+						if t == "" {
+							t = "."
+						}
+						if strings.HasSuffix(t, "..") {
+							hasOutLink = true
+						}
+					}
 				case j == 7:
 					t = srcAbs + "/" + rng.Pick([]string{"a", "b.txt"})
 					hasOutLink = true // absolute targets are never stored as links
@@ -161,6 +171,9 @@ func genPackTree(rng *Rng, risky bool) (*TNode, bool, string) {
 		"src-sib": tdir(0o755, map[string]*TNode{"secret": tfile("sibling-secret", 0o600)}),
 		"outside": outside,
 		"lnk":     tlink("src"),
+		"cyc1":    tlink("cyc2"),
+		"cyc2":    tlink("cyc1"),
+		"other":   tdir(0o755, map[string]*TNode{".terraformignore": tfile("!a\n*\n", 0o644), "keep": tfile("k", 0o644)}),
 		"out":     tdir(0o755, nil),
 	})
 	root := tdir(0o755, map[string]*TNode{"w": w, "secret": tfile("top-secret", 0o600), "cwd2": tdir(0o755, map[string]*TNode{"rl": tlink("../w/src")})})
@@ -192,6 +205,16 @@ func lookupT(root *TNode, p string) *TNode {
 func runPackChild(c *PackCase, R string, spell spelling, failAt int) (*ChildResp, []EntrySpec) {
 	resp := runChild(&ChildReq{Op: "pack", Root: R, Src: spell.src, Cwd: spell.cwd, Deref: c.Deref, Ignore: c.Ignore,
 		Allow: c.Allow, Legacy: c.Legacy, History: c.History, Flags: c.Flags, FailAt: failAt}, 20*time.Second)
+	var es []EntrySpec
+	if resp.Crashed == "" && !resp.Timeout && len(resp.Slug) > 0 {
+		es, _ = decodeSlug(resp.Slug)
+	}
+	return resp, es
+}
+
+func runPackChildPre(c *PackCase, R string, spell spelling, pre string) (*ChildResp, []EntrySpec) {
+	resp := runChild(&ChildReq{Op: "pack", Root: R, Src: spell.src, Cwd: spell.cwd, Deref: c.Deref, Ignore: c.Ignore,
+		Allow: c.Allow, History: c.History, Flags: c.Flags, FailAt: -1, PrePack: pre}, 20*time.Second)
 	var es []EntrySpec
 	if resp.Crashed == "" && !resp.Timeout && len(resp.Slug) > 0 {
 		es, _ = decodeSlug(resp.Slug)
@@ -411,6 +434,9 @@ func runPackCase(c *PackCase, work string, rng *Rng, ignoreText string, hasOut b
 				sig = append(sig, "link_inside_dereferenced_directory")
 			}
 			vs = append(vs, viol("C05", "Unpack rejects the slug Pack produced from a tree with relative links: "+up.Err, sig...))
+			if !c.Deref {
+				vs = append(vs, viol("C02", "Pack followed by Unpack fails: "+up.Err, sig...))
+			}
 		}
 		if up.Err == "" && !c.Deref {
 			after := snapshot(filepath.Join(R, "w/out"))
@@ -450,6 +476,20 @@ func runPackCase(c *PackCase, work string, rng *Rng, ignoreText string, hasOut b
 					sig = append(sig, "source_given_by_way_of_a_symlink")
 				}
 				vs = append(vs, Violation{Property: "C16", Signatures: sig, What: fmt.Sprintf("same tree, source spelled %q from cwd %q (history %v, flags %v) gives a different slug than %q from %q: err %q vs %q", sp.src, sp.cwd, c2.History, c2.Flags, c.Src, c.Cwd, r2.Err, resp.Err)})
+			}
+		}
+	}
+	// ---- C19: a source argument that is itself part of a symlink cycle must not hang Pack ----
+	if rcy := runChild(&ChildReq{Op: "pack", Root: R, Src: "/w/cyc1", Cwd: "/w", Deref: c.Deref, Ignore: c.Ignore, FailAt: -1}, 15*time.Second); rcy.Timeout || rcy.Panic != "" {
+		vs = append(vs, viol("C19", fmt.Sprintf("Pack of a source path that is a link in a symlink cycle (/w/cyc1 <-> /w/cyc2): timeout=%v panic=%q", rcy.Timeout, rcy.Panic)))
+	}
+	// ---- C16: the same Packer value used for another tree first ----
+	if !c.Risky && !c.Legacy {
+		c3 := *c
+		r3, es3 := runPackChildPre(&c3, R, spelling{c.Src, c.Cwd}, "/w/other")
+		if r3.Crashed == "" && !r3.Timeout {
+			if (r3.Err == "") != ok || (ok && entriesKey(es3) != entriesKey(es)) {
+				vs = append(vs, viol("C16", fmt.Sprintf("packing %q with a Packer that packed /w/other before gives a different slug than with a fresh Packer (err %q vs %q)", c.Src, r3.Err, resp.Err)))
 			}
 		}
 	}
